@@ -31,10 +31,10 @@ func NewCustom(signer crypto.Key) *config.Custom {
 
 type Sim struct {
 	LastWriteCommits int // separate Badger commits made by the latest WriteSnapshot call of Finalize
-	Net    *verifgen.Net
-	Custom *config.Custom
-	Store  *storage.BadgerStore
-	Dir    string
+	Net              *verifgen.Net
+	Custom           *config.Custom
+	Store            *storage.BadgerStore
+	Dir              string
 
 	Chain crypto.Hash // chain all simulated snapshots are written to (node 0)
 	Topo  uint64
